@@ -805,6 +805,25 @@ class Engine:
         for t in node.targets:
             if isinstance(t, ast.Name):
                 st.env.pop(t.id, None)
+            elif isinstance(t, ast.Subscript) and not isinstance(t.slice, ast.Slice) and len(node.targets) == 1:
+                # del d[k] on a dict with a concrete key: the overlay records the key as absent
+                def k(s, vs):
+                    c, i = vs
+                    if not isinstance(c, dict) or has_sym(i) or is_sym(i):
+                        raise Unsupported('del of item of %s' % type(c).__name__)
+                    try:
+                        present = i in c
+                    except TypeError as e:
+                        return [(s, RAISE, e)]
+                    h = s.heap.get((id(c), ('item', i)))
+                    if h is not None:
+                        present = h[1] is not _MISSING
+                    if not present:
+                        return [(s, RAISE, KeyError(i))]
+                    s = s.copy()
+                    self.heap_set(s, c, ('item', i), _MISSING)
+                    return [(s, NORMAL, None)]
+                return self.eval_list(st, [t.value, t.slice], fr, k)
             else:
                 raise Unsupported('del of non-name')
         return [(st, NORMAL, None)]
